@@ -30,9 +30,6 @@ class KnownFindings:
     def __init__(s, path=f'{VERIF}/known_findings.json'):
         try: s.entries = json.load(open(path))['findings']
         except FileNotFoundError: s.entries = []
-        import glob
-        for f in sorted(glob.glob(f'{VERIF}/known_findings.d/*.json')):   # per-property fragments (merged view)
-            s.entries += json.load(open(f))['findings']
     def match(s, prop, key):
         for e in s.entries:
             if e.get('property') == prop and e.get('status', 'open') == 'open' and e.get('key') == key: return e
